@@ -166,7 +166,7 @@ func (c *Ctx) MatrixKind(s *Schema) string {
 		switch {
 		case ap == nil:
 			for _, p := range s.Properties {
-				if p.Ref == "" && p.Type == "object" {
+				if p.Ref == "" && (p.Type == "object" || len(p.AllOf) > 0 || len(p.OneOf) > 0) {
 					return "object-nested"
 				}
 			}
